@@ -173,7 +173,11 @@ FsStep(m0, e) ==
               ELSE [m1 EXCEPT !.files[j].sf = TRUE]
     [] e.call = "ftruncate" ->
          IF j = 0 \/ e.res # 0 THEN m1
-         ELSE [m1 EXCEPT !.files[j].w = Min2(@, e.off), !.files[j].d = Min2(@, e.off)]
+         ELSE IF e.off > m1.files[j].w
+              THEN \* C11: set_len beyond the written extent puts bytes into the journal that no accepted write produced
+                   ViolKeep([m1 EXCEPT !.files[j].w = e.off], "C11", "file_extended_beyond_journal", e,
+                            [ck |-> e.ck, off |-> e.off, w |-> m1.files[j].w])
+              ELSE [m1 EXCEPT !.files[j].w = Min2(@, e.off), !.files[j].d = Min2(@, e.off)]
     [] e.call = "unlink" ->
          IF e.res # 0 THEN m1
          ELSE
